@@ -163,6 +163,11 @@ def compare(ast, sm, schema, text, overrides):
             if r[0] != with_ov[0] or (r[0] == "ok" and digest.first_diff(with_ov[1], r[1])):
                 out.append(("reused-loader-load-%d-differs" % nth, "%s vs %s ; overrides %r" % (r[0], with_ov[0], specs)))
                 break
+    # an extended loader that was given no option at all behaves like the plain loader
+    plain = outcome(loadcheck.real_load(schema, text, url=MAIN))
+    none = outcome(loadcheck.real_load_with(cmdline.ExtendedConfigLoader(schema), text, MAIN))
+    if plain[0] != none[0] or (plain[0] == "ok" and digest.first_diff(plain[1], none[1])):
+        out.append(("extended-loader-without-options-differs", "%s vs %s" % (none[0], plain[0])))
     try:
         edited = edit(sm, text, overrides)
     except Unresolved as e:
